@@ -167,9 +167,26 @@ func VerifC04_FaultyRemoval() {
 	fs := NewVirtualFileSystem(lfs, InMemoryFS, IdentityPathConverterFunc)
 	before := vOutsideOf(lfs.snapshot())
 	faultAt := verif.Len("faultAtRemoval", 1, 7) // the k-th Remove issued by the call fails
+	// ... or, instead, the caller's context is cancelled right after the k-th removal
+	cancelInstead := verif.Bool("cancelInstead")
+	ctx, cancel := context.WithCancel(context.Background())
+	defer cancel()
 	removals := 0
 	faulted := false
 	lfs.before = func(op *vOp) error {
+		if cancelInstead {
+			if op.name == "Remove" || op.name == "RemoveAll" {
+				removals++
+				if removals == faultAt+1 {
+					// the k-th removal is done: the (k+1)-th is the first thing that happens after the cancellation
+					faulted = true
+				}
+				if removals == faultAt {
+					defer cancel()
+				}
+			}
+			return nil
+		}
 		if op.name == "Remove" || op.name == "RemoveAll" {
 			removals++
 			if removals == faultAt {
@@ -179,8 +196,10 @@ func VerifC04_FaultyRemoval() {
 		}
 		return nil
 	}
-	ctx := context.Background()
 	op := verif.Choice("op", 3)
+	if cancelInstead {
+		verif.Assume(op != 0) // Rm takes no context
+	}
 	var err error
 	switch op {
 	case 0:
